@@ -96,4 +96,123 @@ theorem rollback_hook_failure (post : Bool) (fl : RollbackFlags) (l : Ledger) (c
     rw [hres]
     exact ⟨rfl, hf2⟩
 
+/-- A rollback whose update is rejected, or whose readiness wait fails, on any history with
+unique revisions (healthy storage, no cleanup fault): error; the new revision is recorded as
+failed; on a rejected update the revision rolled back from is marked superseded (as the source
+does), on a failed wait it keeps its status; nothing else changes. -/
+theorem rollback_resource_failure (waitFails : Bool) (fl : RollbackFlags) (l : Ledger) (cur prevRec : Rec)
+    (hdry : fl.dryRun = false) (hmax : fl.maxHistory = 0) (hnd : (revs l).Nodup)
+    (hlast : last? l = some cur)
+    (hprev : get? l (if fl.version = 0 then cur.rev - 1 else fl.version) = some prevRec) :
+    (rollback fl (if waitFails then { wait := .fail } else { resources := .fail }) l).2 = .error ∧
+    (rollback fl (if waitFails then { wait := .fail } else { resources := .fail }) l).1.ledger =
+      (if waitFails then l else setStatus l cur.rev .superseded) ++ [⟨cur.rev + 1, .failed, prevRec.payload⟩] := by
+  obtain ⟨hcm, hcr⟩ := last?_spec hlast
+  let n := cur.rev + 1
+  let tgt : Rec := ⟨n, .pendingRollback, prevRec.payload⟩
+  let nh := if fl.disableHooks then 0 else fl.nHooks
+  let s0 : St := { ledger := l, decs := [] }
+  have hfresh : get? l tgt.rev = none :=
+    get?_none_of_lt l n (fun x hx => by have := rev_le_maxRev l x hx; omega)
+  let s1 : St := (stCreate s0 tgt).2
+  have hs1 : stCreate s0 tgt = (.ok, s1) := by simp [s1, stCreate, nextDec, s0, hfresh]
+  have hs1l : s1.ledger = l ++ [tgt] := by simp [s1, stCreate, nextDec, s0, hfresh]
+  have hs1d : s1.decs = [] := by simp [s1, stCreate, nextDec, s0, hfresh]
+  have huniq : ∀ (s : St), s.ledger = l ++ [tgt] → ∀ x ∈ s.ledger, x.rev = tgt.rev → x = tgt := by
+    intro s hs x hx hr
+    rw [hs] at hx
+    rcases List.mem_append.mp hx with h | h
+    · have := rev_le_maxRev l x h; simp [tgt, n] at hr; omega
+    · simpa using h
+  have hpre := hookPhase_same tgt nh .ok s1 hs1d (by simp [hs1l]) (huniq s1 hs1l)
+  let s2 : St := (hookPhase s1 tgt nh .ok).2
+  have hs2 : hookPhase s1 tgt nh .ok = (.ok, s2) := by
+    apply Prod.ext
+    · simp only [hpre.1]; split <;> rfl
+    · rfl
+  have hs2l : s2.ledger = l ++ [tgt] := by rw [← hs1l]; exact hpre.2.1
+  have hs2d : s2.decs = [] := hpre.2.2
+  have hs1' : stCreate { ledger := l, decs := [] } ⟨cur.rev + 1, .pendingRollback, prevRec.payload⟩ = (.ok, s1) := hs1
+  have hs2' : hookPhase s1 ⟨cur.rev + 1, .pendingRollback, prevRec.payload⟩ (if fl.disableHooks then 0 else fl.nHooks) .ok = (.ok, s2) := hs2
+  have hcne : ¬ tgt.rev = cur.rev := by simp [tgt, n]
+  cases waitFails with
+  | false =>
+    -- current -> superseded, then target -> failed
+    have hc2 : cur.rev ∈ revs s2.ledger := by
+      rw [hs2l]; simp only [revs, List.map_append, List.mem_append]
+      exact Or.inl (List.mem_map.mpr ⟨cur, hcm, rfl⟩)
+    have hu3 := stUpdate_ok s2 { cur with status := .superseded } hs2d hc2
+    let s3 : St := (stUpdate s2 { cur with status := .superseded }).2
+    have hs3 : stUpdate s2 { cur with status := .superseded } = (.ok, s3) := Prod.ext (by rw [hu3]) rfl
+    have hs3l : s3.ledger = setStatus l cur.rev .superseded ++ [tgt] := by
+      simp only [s3, hu3, hs2l, List.map_append, List.map_cons, List.map_nil, hcne, if_false]
+      congr 1
+      unfold setStatus
+      apply List.map_congr_left
+      intro x hx
+      by_cases hxc : x.rev = cur.rev
+      · have : x = cur := eq_of_rev hnd hx hcm hxc
+        subst this; simp
+      · simp [hxc]
+    have hs3d : s3.decs = [] := by simp [s3, hu3, hs2d]
+    have hn3 : ({ tgt with status := .failed } : Rec).rev ∈ revs s3.ledger := by
+      rw [hs3l]; simp [revs, tgt]
+    have hu4 := stUpdate_ok s3 { tgt with status := .failed } hs3d hn3
+    have hu4' : stUpdate s3 ⟨cur.rev + 1, .failed, prevRec.payload⟩ = (.ok, (stUpdate s3 { tgt with status := .failed }).2) := by
+      have : stUpdate s3 { tgt with status := .failed } = stUpdate s3 ⟨cur.rev + 1, .failed, prevRec.payload⟩ := rfl
+      rw [← this, hu4]
+    have hres : rollback fl { resources := .fail } l = ((stUpdate s3 { tgt with status := .failed }).2, .error) := by
+      unfold rollback rollbackOn
+      simp only [hlast, hprev, hdry, Bool.false_eq_true, if_false, storageCreate, hmax, Nat.lt_irrefl, hs1', hs2', hs3, hu4']
+      simp
+    simp only [Bool.false_eq_true, if_false]
+    rw [hres]
+    refine ⟨rfl, ?_⟩
+    rw [hu4]
+    simp only [hs3l, List.map_append, List.map_cons, List.map_nil]
+    congr 1
+    · conv => rhs; rw [← List.map_id (setStatus l cur.rev .superseded)]
+      apply List.map_congr_left
+      intro x hx
+      unfold setStatus at hx
+      obtain ⟨y, hy, hyx⟩ := List.mem_map.mp hx
+      have hyn : ¬ y.rev = n := by have := rev_le_maxRev l y hy; omega
+      have : ¬ x.rev = n := by
+        rw [← hyx]; split
+        · exact hyn
+        · exact hyn
+      simp [tgt, this]
+  | true =>
+    -- current re-recorded as it is, then target -> failed
+    have hcuniq : ∀ x ∈ s2.ledger, x.rev = cur.rev → x = cur := by
+      intro x hx hr
+      rw [hs2l] at hx
+      rcases List.mem_append.mp hx with h | h
+      · exact eq_of_rev hnd h hcm hr
+      · simp only [List.mem_singleton] at h; subst h; exact absurd hr hcne
+    obtain ⟨h1, h2, h3⟩ := stUpdate_same s2 cur hs2d (by rw [hs2l]; exact List.mem_append_left _ hcm) hcuniq
+    let s3 : St := (stUpdate s2 cur).2
+    have hs3 : stUpdate s2 cur = (.ok, s3) := Prod.ext h1 rfl
+    have hs3l : s3.ledger = l ++ [tgt] := by rw [← hs2l]; exact h2
+    have hn3 : ({ tgt with status := .failed } : Rec).rev ∈ revs s3.ledger := by
+      rw [hs3l]; simp [revs, tgt]
+    have hu4 := stUpdate_ok s3 { tgt with status := .failed } h3 hn3
+    have hu4' : stUpdate s3 ⟨cur.rev + 1, .failed, prevRec.payload⟩ = (.ok, (stUpdate s3 { tgt with status := .failed }).2) := by
+      have : stUpdate s3 { tgt with status := .failed } = stUpdate s3 ⟨cur.rev + 1, .failed, prevRec.payload⟩ := rfl
+      rw [← this, hu4]
+    have hres : rollback fl { wait := .fail } l = ((stUpdate s3 { tgt with status := .failed }).2, .error) := by
+      unfold rollback rollbackOn
+      simp only [hlast, hprev, hdry, Bool.false_eq_true, if_false, storageCreate, hmax, Nat.lt_irrefl, hs1', hs2', hs3, hu4']
+    simp only [if_true]
+    rw [hres]
+    refine ⟨rfl, ?_⟩
+    rw [hu4]
+    simp only [hs3l, List.map_append, List.map_cons, List.map_nil]
+    congr 1
+    · conv => rhs; rw [← List.map_id l]
+      apply List.map_congr_left
+      intro x hx
+      have : ¬ x.rev = n := by have := rev_le_maxRev l x hx; omega
+      simp [tgt, this]
+
 end Helm.Ledger
